@@ -76,8 +76,11 @@ pub fn replay(args: &[String], out: &mut Out) {
                 for &k in &ord[1..] {
                     n += 1;
                     let same_id = acc.unique_id().ok().is_some() && acc.unique_id().ok() == ids[k];
+                    let held_both: Vec<usize> = acc.inputs().iter().enumerate().filter(|(_, i)| i.non_witness_utxo.is_some() && i.witness_utxo.is_some()).map(|(n, _)| n).collect();
                     match acc.merge(descs[k].clone()) {
                         Ok(()) => {
+                            // the inherited combiner rule clears the non-witness UTXO only when a witness UTXO is newly set
+                            for n in &held_both { if acc.inputs()[*n].non_witness_utxo.is_none() { bad.push(("C14/merge/dropped/input.non_witness_utxo/receiver-already-held-both-forms".into(), adds_label.join(" | "))); } }
                             if !same_id { bad.push(("C14/merge/accepted-different-unique-id".into(), adds_label.join(" | "))); }
                             merged.push(k);
                         }
@@ -155,9 +158,15 @@ pub fn keysources(args: &[String], out: &mut Out) {
         let cls = format!("len{}-vs-len{}/{}", ka.1.len(), kb.1.len(), if c["a"]["fp"] == c["b"]["fp"] { "same-fp" } else { "other-fp" });
         let case = json!({"case": c});
         let mk = |ks: &(Fingerprint, DerivationPath)| { let mut p = anc.clone(); p.global.xpub.insert(x, ks.clone()); p };
+        // the operand merged in also carries other global data: reconciling the key source must not end the merge of the map
+        let extra_key = elements::pset::raw::ProprietaryKey { prefix: b"vh".to_vec(), subtype: 7, key: vec![1] };
         for (first, second, dir) in [(&ka, &kb, "a<-b"), (&kb, &ka, "b<-a")] {
             let mut p = mk(first);
-            let res = guard(|| p.merge(mk(second)));
+            let mut q = mk(second);
+            q.global.proprietary.insert(extra_key.clone(), vec![9, 9]);
+            q.global.scalars.push(pools::tweak(&mut r));
+            let want_scalars = q.global.scalars.clone();
+            let res = guard(|| p.merge(q));
             let want = c["want"].as_str().unwrap();
             match res {
                 Err(pn) => out.viol(&format!("C14/xpub/panic/{}", cls), case.clone(), format!("{} at {} ({})", pn, last_panic_loc(), dir)),
@@ -168,6 +177,9 @@ pub fn keysources(args: &[String], out: &mut Out) {
                     } else {
                         let keep = if c["keep"] == "a" { &ka } else { &kb };
                         if p.global.xpub.get(&x) != Some(keep) { out.viol(&format!("C14/xpub/wrong-key-source-kept/{}", cls), case.clone(), dir.to_string()); }
+                        if p.global.proprietary.get(&extra_key) != Some(&vec![9, 9]) || !want_scalars.iter().all(|s| p.global.scalars.contains(s)) {
+                            out.viol(&format!("C14/merge/dropped/global-data-after-xpub/{}", cls), case.clone(), dir.to_string());
+                        }
                     }
                 }
             }
